@@ -189,6 +189,99 @@ pub fn directed() -> Vec<(String, &'static str, Vec<Op>)> {
     out
 }
 
+/// Scenarios in which SEVERAL operations share one save interval (the close comes only where written; `None`
+/// in the list stands for a close, whose mode rotates over the passes).
+pub fn directed_sessions() -> Vec<(String, Vec<Option<Op>>)> {
+    let kv = vec![ColDef::new("K", CT::Int16).key(), ColDef::new("V", CT::Str(0)).nullable()];
+    let create = |n: &str| Some(Op::CreateTable { name: n.into(), cols: kv.clone() });
+    let ins = |n: &str, k: i32, v: &str| Some(Op::Insert { table: n.into(), rows: vec![vec![V::Int(k), V::s(v)]] });
+    let mut out = Vec::new();
+    // a string change followed, in the same interval, by setting the code page the database already has
+    for page in [65001, 1252] {
+        out.push((
+            format!("insert-then-same-codepage-{}", page),
+            vec![create("T"), ins("T", 1, "t0x1 a"), Some(Op::SetDbCodepage(page)), None, ins("T", 2, "t0x2 b"), ins("T", 3, "t0x3 c"), Some(Op::SetDbCodepage(page)), None],
+        ));
+        out.push((
+            format!("delete-then-same-codepage-{}", page),
+            vec![
+                create("T"),
+                ins("T", 1, "t0x1 a"),
+                ins("T", 2, "t0x2 b"),
+                Some(Op::SetDbCodepage(page)),
+                None,
+                Some(Op::Delete { table: "T".into(), cond: None }),
+                Some(Op::SetDbCodepage(page)),
+                None,
+                ins("T", 5, "t0x5 e"),
+                None,
+            ],
+        ));
+        out.push((
+            format!("update-then-same-codepage-{}", page),
+            vec![
+                create("T"),
+                ins("T", 1, "t0x1 a"),
+                Some(Op::SetDbCodepage(page)),
+                None,
+                Some(Op::Update { table: "T".into(), sets: vec![("V".into(), V::s("t0x9 z"))], cond: None }),
+                Some(Op::SetDbCodepage(page)),
+                Some(Op::Summary(crate::model::SumOp::SetWordCount(2))),
+                None,
+            ],
+        ));
+    }
+    // a table change followed by a summary change and vice versa
+    out.push(("table-then-summary".into(), vec![create("T"), ins("T", 1, "t0x1 a"), Some(Op::Summary(crate::model::SumOp::SetTitle("t0x7 title".into()))), None, ins("T", 2, "t0x2 b"), Some(Op::Summary(crate::model::SumOp::SetAuthor("t0x8 author".into()))), None]));
+    out.push(("summary-then-table".into(), vec![Some(Op::Summary(crate::model::SumOp::SetTitle("t0x7 title".into()))), create("T"), None, Some(Op::Summary(crate::model::SumOp::SetAuthor("t0x8 author".into()))), ins("T", 1, "t0x1 a"), None]));
+    out.push(("stream-then-table-then-summary".into(), vec![Some(Op::WriteStream { name: "S.bin".into(), data: vec![5; 300] }), create("T"), ins("T", 1, "t0x1 a"), Some(Op::Summary(crate::model::SumOp::SetWordCount(4))), None, Some(Op::RemoveStream { name: "S.bin".into() }), Some(Op::Summary(crate::model::SumOp::SetWordCount(2))), None]));
+    out
+}
+
+fn run_directed_session(rep: &mut Report, name: &str, items: &[Option<Op>]) {
+    let mon = monitors();
+    for pass in 0..3 {
+        let mut steps = Vec::new();
+        let mut k = 0;
+        for it in items {
+            match it {
+                Some(op) => steps.push(d(op.clone())),
+                None => {
+                    steps.push(Step::Close(CLOSE_MODES[(k + pass) % 3]));
+                    k += 1;
+                }
+            }
+        }
+        let mut scratch = Report::new();
+        let mut finding = None;
+        match Session::create("Installer") {
+            Err(f) => finding = Some(f),
+            Ok(mut s) => {
+                for st in &steps {
+                    let r = match st {
+                        Step::Do(op) => s.apply(op, &mon, &mut scratch),
+                        Step::Close(m) => s.close_point(*m, &mut scratch),
+                    };
+                    if let Err(f) = r {
+                        s.leak();
+                        finding = Some(f);
+                        break;
+                    }
+                }
+            }
+        }
+        for (k, v) in scratch.counters {
+            rep.add(&k, v);
+        }
+        rep.case(Some(fnv(format!("session:{}:{}", name, pass).as_bytes())));
+        if let Some(f) = finding {
+            hist::record(rep, "C01", &f, "Installer", None, &steps, &mon, json!({"kind": "directed-session", "name": name, "pass": pass}));
+            return;
+        }
+    }
+    rep.count("directed_sessions");
+}
+
 fn run_directed(rep: &mut Report, name: &str, ptype: &'static str, ops: &[Op]) {
     let mon = monitors();
     for pass in 0..3 {
@@ -239,6 +332,13 @@ pub fn run(ctx: &Ctx) -> Report {
                     }
                 }
             }
+            Some("directed-session") => {
+                for (n, items) in directed_sessions() {
+                    if Some(n.as_str()) == w["name"].as_str() {
+                        run_directed_session(&mut rep, &n, &items);
+                    }
+                }
+            }
             Some("random") => run_random(
                 w["seed"].as_u64().unwrap_or(ctx.seed),
                 w["case"].as_u64().unwrap_or(0),
@@ -260,6 +360,11 @@ pub fn run(ctx: &Ctx) -> Report {
         for (k, (name, pt, ops)) in dir_ref.iter().enumerate() {
             if k % n == shard {
                 run_directed(&mut rep, name, pt, ops);
+            }
+        }
+        for (k, (name, items)) in directed_sessions().iter().enumerate() {
+            if (k + 3) % n == shard {
+                run_directed_session(&mut rep, name, items);
             }
         }
         for case in (shard as u64..n_random).step_by(n) {
